@@ -525,7 +525,10 @@ pub fn run_property<P: Property>(tier: Tier, seed: u64) -> RunResult {
                         Some((cid, t0)) => cpu_now(*cid).map(|t| t - t0),
                         None => None,
                     };
-                    if used.map(|u| u > budget as f64).unwrap_or(false) {
+                    // (on an oversubscribed machine CPU time accrues slowly: a case that has been out for the whole hang limit and
+                    // has burnt a third of the budget meanwhile is busy, not blocked)
+                    let out_long = shared.current[w].lock().unwrap().as_ref().map(|(t, _)| t.elapsed() + Duration::from_secs(2) > hang_limit()).unwrap_or(false);
+                    if used.map(|u| u > budget as f64 || (out_long && u > budget as f64 / 3.0)).unwrap_or(false) {
                         let case = shared.current[w].lock().unwrap().as_ref().map(|(_, c)| c.clone()).unwrap_or_else(|| "null".into());
                         let dir = verif_root().join("replays");
                         let _ = std::fs::create_dir_all(&dir);
